@@ -254,21 +254,26 @@ func (d *Decoder) decodeNumber(majorByte byte) (tok.TokenType, int64, float64, e
 	for {
 		b, err := d.r.Readn1()
 		if err == io.EOF {
+			// The stream ended: the number must be complete, i.e. the scanner
+			// must be in a state that a terminating byte would be accepted in.
+			if _, err := step(' '); err != nil {
+				return 0, 0, 0, io.ErrUnexpectedEOF
+			}
 			break
 		}
 		if err != nil {
 			return 0, 0, 0, err
 		}
 		step, err = step(b)
+		if err != nil {
+			return 0, 0, 0, err
+		}
 		if step == nil {
 			// Unread one.  The scan loop consumed one char beyond the end
 			// (this is necessary in json!),
 			// which the next part of the decoder will need elsewhere.
 			d.r.Unreadn1()
 			break
-		}
-		if err != nil {
-			return 0, 0, 0, err
 		}
 	}
 	// Parse!
